@@ -30,7 +30,7 @@ COMMON_TRUSTED = [
 
 PROPS = {
   "C03": {
-    "units": ["dec", "enc", "framer"],
+    "units": ["dec", "enc", "framer", "c03lem"],
     "kani_quick": [],
     "kani_thorough": ["vk_peek_frame_len"],
     "claim": "Unbounded machine-checked proof (Verus/Z3) on the verbatim text of rzmq's encoders and decoders, extracted from /repo on every run: "
